@@ -99,6 +99,7 @@ func (h *hist) race(rc *raceCfg, pol *HandPolicy) string {
 			bank = pl.Bankroll
 		}
 	}
+	beforeActs := len(td.actions)
 	var extOld, extRet int64
 	var extErr error
 	if kind == "extend" {
@@ -155,7 +156,24 @@ func (h *hist) race(rc *raceCfg, pol *HandPolicy) string {
 	env.Join(tA, tB)
 	env.WindowEnd()
 	env.Settle()
-	if kind == "noop" && a == "fold" {
+	if kind == "noop" && arg == "event" {
+		// C10: the action event published for the accepted action names the round the action was made in, also
+		// when the action closes the betting round and the hand's updater goroutine moves on at once
+		found := false
+		for _, e := range td.actions[beforeActs:] {
+			if e.A.PlayerID == who && e.A.Action == a {
+				found = true
+				diagNotes[fmt.Sprintf("race-event: %s in %s, event names round %q", a, p.GS.Status.Round, e.A.Round)]++
+				if e.A.Round != p.GS.Status.Round || e.A.GameID != p.GS.GameID {
+					h.raceViol = &Viol{Key: "action-event-fields@round-closing-" + a, Detail: fmt.Sprintf("%s's %s was accepted in round %q of hand %s (it closed the betting round, the hand went on); the action event names round %q hand %s", who, a, p.GS.Status.Round, p.GS.GameID, e.A.Round, e.A.GameID)}
+				}
+			}
+		}
+		if !found && h.raceViol == nil {
+			h.raceViol = &Viol{Key: "action-event-missing@round-closing-" + a, Detail: fmt.Sprintf("no action event for %s's accepted %s", who, a)}
+		}
+	}
+	if kind == "noop" && arg == "" && a == "fold" {
 		// C14: the fold round recorded for the folder is the round in which the fold was accepted, also when that
 		// fold closes the betting round and the hand's updater goroutine moves on at once
 		if pl := td.player(who); pl != nil && td.table().State.GameState != nil {
